@@ -855,6 +855,19 @@ func c04(c *core.Ctx) {
 			}
 			c.Check(shortFn(fn)+"→Ecrecover:low-s", "guarded-action", ok, s.Instr.Pos(), "%s must refuse s > n/2 (ValidateSignature / ValidateSignatureValues on the very bytes it recovers from, heeded) before the recovered key is used: %s", shortFn(fn), orOK(why))
 		}
+		// the identity hash covers the signature bytes as they are stored: recoverSigners recovers from (and validates) an element of the
+		// list it was given, not from bytes a call made out of it (a normalised copy gives one signature two accepted encodings)
+		rs := c.Fn("chain/types.recoverSigners")
+		for _, g := range core.CallsIn(rs, ec) {
+			raw := true
+			sl := core.SliceShallow(g.Common().Args[1])
+			for v := range sl {
+				if cl, isCall := v.(*ssa.Call); isCall && core.BuiltinCallName(cl) == "" {
+					raw = false
+				}
+			}
+			c.Check("recoverSigners→Ecrecover:stored-bytes", "value-flow", raw && sl[rs.Params[1]], g.Pos(), "the bytes recovered from are an element of the signature list itself (the transaction hash covers exactly those bytes)")
+		}
 		c.Floor("Ecrecover-consumers", n, 4)
 		c.Floor("Ecrecover-consumers/uses-of-recovered-key", nUses, 4)
 		closedCallers(c, "crypto.SigToPub", nil, c.FuncObj("common/crypto.SigToPub"))
